@@ -35,6 +35,10 @@ func glob(dir string, g string) ([]string, error) {
 
 	for _, f := range fs {
 		info, err := os.Stat(f)
+		if os.IsNotExist(err) {
+			// a link to nowhere among the matches: the other matches still count
+			continue
+		}
 		if err != nil {
 			return nil, err
 		}
